@@ -133,7 +133,7 @@ func hpGarbage(rng hpRng) string {
 	case 0:
 		return "hex:"
 	case 1: // a truncated ip4/tcp address
-		return "hex:0405050505"
+		return "hex:04050505"
 	case 2: // unknown protocol code
 		return "hex:ffff7f0102"
 	}
@@ -486,7 +486,7 @@ type hpResult struct {
 
 func hpRun(t *testing.T, sc *hpScenario) (res hpResult) {
 	res.bubble = run.Bubble(t, func(t *testing.T) {
-		w := &hpWorld{sc: sc, start: time.Now(), ps: map[peer.ID][]ma.Multiaddr{}, adv: map[string]bool{}}
+		w := &hpWorld{sc: sc, start: time.Now(), ps: map[peer.ID][]ma.Multiaddr{}}
 		h := newHpHost(w)
 		for _, a := range sc.PS {
 			w.ps[hpPartner] = append(w.ps[hpPartner], ma.StringCast(a))
@@ -499,7 +499,7 @@ func hpRun(t *testing.T, sc *hpScenario) (res hpResult) {
 			w.addConn(hpBystander, "limited-in", nil)
 			w.ps[hpBystander] = []ma.Multiaddr{ma.StringCast("/ip4/8.8.4.4/tcp/4001")}
 		}
-		self := hpRelayAddrs()[0][:strings.LastIndex(hpRelayAddrs()[0], "/p2p-circuit")] + "/p2p-circuit"
+		self := hpRelayAddrs()[0] // our own address behind the relay
 		listen := func() []ma.Multiaddr { // a fresh slice each time: the service filters it in place
 			pub := ma.StringCast("/ip4/7.7.7.7/tcp/4001")
 			switch sc.Listen {
@@ -646,8 +646,8 @@ func hpCheck(sc *hpScenario, res *hpResult) (out []finding, st map[string]int) {
 	}
 	for _, l := range lists {
 		for _, s := range l {
-			if !strings.HasPrefix(s, "hex:") {
-				peerAddrs[ma.StringCast(s).String()] = true
+			if a, err := ma.NewMultiaddrBytes(hpAddrBytes(s)); err == nil { // random bytes may happen to be an address
+				peerAddrs[a.String()] = true
 			}
 		}
 	}
@@ -682,10 +682,11 @@ func hpCheck(sc *hpScenario, res *hpResult) (out []finding, st map[string]int) {
 			if e.Note == "remote sends CONNECT" {
 				relay, other := 0, 0
 				for _, s := range e.Addrs {
-					if strings.HasPrefix(s, "hex:") {
+					a, err := ma.NewMultiaddrBytes(hpAddrBytes(s))
+					if err != nil {
 						continue
 					}
-					if hpIsRelay(ma.StringCast(s)) {
+					if hpIsRelay(a) {
 						relay++
 					} else {
 						other++
